@@ -243,6 +243,7 @@ def for_seq(ex, s, st, it, item_of=None, index_values=None):
     elem0 = it.elem if isinstance(it, PSeq) else 'val'
     def bind(h0):
         i0 = fresh('i', IntSort()); h0.assume(0 <= i0, i0 < n)
+        _assume_inv(h0, LoopCtx(key, st, h0, pre, i=i0, n=n, arr=arr), inv)
         item0 = item_of(i0) if item_of else ZV('ref', Val.ref(arr[i0]), elem0[4:]) if elem0.startswith('ref:') else ZV('val', arr[i0])
         return [s2 for s2, f2 in ex.assign(h0, s.target, item0)]
     h = havoc_loop(ex, st, s.body, extra_names=_target_names(s.target), bind=bind)
@@ -288,6 +289,8 @@ def for_set(ex, s, st, it, item_of=None):
     _oblige_inv(ex, key, 'establish', st, LoopCtx(key, st, st, pre, done=K(dom, BoolVal(False)), S=it.arr), inv)
     def bind(h0):
         x0 = fresh('x', dom); h0.assume(it.arr[x0])
+        d0 = fresh('done', it.arr.sort())
+        _assume_inv(h0, LoopCtx(key, st, h0, pre, done=d0, S=it.arr), inv)
         item0 = item_of(x0) if item_of else ZV('ref', x0) if it.ekind == 'ref' else ZV('val', x0) if it.ekind == 'val' else ZV('str', x0)
         return [s2 for s2, f2 in ex.assign(h0, s.target, item0)]
     h = havoc_loop(ex, st, s.body, extra_names=_target_names(s.target), bind=bind)
@@ -325,7 +328,11 @@ def run_while(ex, s, st):
     st = bind_loop_locals(st, s.body)
     pre = ex.spec.pre_view
     _oblige_inv(ex, key, 'establish', st, LoopCtx(key, st, st, pre), inv)
-    h = havoc_loop(ex, st, s.body)
+    def bind_w(h0):
+        # the discovery runs start from loop-head states too: they satisfy the invariant
+        _assume_inv(h0, LoopCtx(key, st, h0, pre), inv)
+        return [h0]
+    h = havoc_loop(ex, st, s.body, bind=bind_w)
     _assume_inv(h, LoopCtx(key, st, h, pre), inv)
     res = []
     always = isinstance(s.test, ast.Constant) and s.test.value is True
